@@ -334,7 +334,28 @@ func guardedBy(b *ssa.BasicBlock, val ssa.Value) (bool, string) {
 		if branch < 0 || idom.Succs[0] == idom.Succs[1] {
 			continue
 		}
-		bin, ok := ifi.Cond.(*ssa.BinOp)
+		cond := ifi.Cond
+		flip := false
+		for {
+			if u, ok := cond.(*ssa.UnOp); ok && u.Op == token.NOT {
+				cond, flip = u.X, !flip
+				continue
+			}
+			break
+		}
+		if call, ok := cond.(*ssa.Call); ok {
+			// a one-line predicate of the object: func (s *T) installed() bool { return s.f != nil }
+			if what, neq, ok := nilPredicate(call); ok && what == Expr(val) && !strings.Contains(what, "local") && !strings.Contains(what, "phi(") {
+				if flip {
+					neq = !neq
+				}
+				if (neq && branch == 0) || (!neq && branch == 1) {
+					return true, what + " != nil (through " + call.Call.StaticCallee().Name() + ")"
+				}
+			}
+			continue
+		}
+		bin, ok := cond.(*ssa.BinOp)
 		if !ok {
 			continue
 		}
@@ -349,11 +370,73 @@ func guardedBy(b *ssa.BasicBlock, val ssa.Value) (bool, string) {
 		if !sameExpr(other, val) {
 			continue
 		}
-		if (bin.Op == token.NEQ && branch == 0) || (bin.Op == token.EQL && branch == 1) {
+		neq := bin.Op == token.NEQ
+		if flip {
+			neq = !neq
+		}
+		if bin.Op != token.NEQ && bin.Op != token.EQL {
+			continue
+		}
+		if (neq && branch == 0) || (!neq && branch == 1) {
 			return true, Expr(other) + " != nil"
 		}
 	}
 	return false, ""
+}
+
+// nilPredicate: call is a static call of a function with one block that returns `<param i>.<field> != nil` (or
+// == nil); the expression is rendered in the caller's terms (the argument in place of the parameter).
+func nilPredicate(call *ssa.Call) (what string, neq bool, ok bool) {
+	callee := call.Call.StaticCallee()
+	if callee == nil || len(callee.Blocks) != 1 {
+		return "", false, false
+	}
+	var ret *ssa.Return
+	for _, in := range callee.Blocks[0].Instrs {
+		if r, isRet := in.(*ssa.Return); isRet {
+			ret = r
+		}
+	}
+	if ret == nil || len(ret.Results) != 1 {
+		return "", false, false
+	}
+	bin, isBin := ret.Results[0].(*ssa.BinOp)
+	if !isBin || (bin.Op != token.NEQ && bin.Op != token.EQL) {
+		return "", false, false
+	}
+	var other ssa.Value
+	switch {
+	case isNilConst(bin.Y):
+		other = bin.X
+	case isNilConst(bin.X):
+		other = bin.Y
+	default:
+		return "", false, false
+	}
+	ld, isLoad := other.(*ssa.UnOp)
+	if !isLoad || ld.Op != token.MUL {
+		return "", false, false
+	}
+	fa, isFA := ld.X.(*ssa.FieldAddr)
+	if !isFA {
+		return "", false, false
+	}
+	par, isPar := fa.X.(*ssa.Parameter)
+	if !isPar {
+		return "", false, false
+	}
+	idx := -1
+	for i, q := range callee.Params {
+		if q == par {
+			idx = i
+		}
+	}
+	args := call.Call.Args
+	if idx < 0 || idx >= len(args) {
+		return "", false, false
+	}
+	// the same load in the caller's terms
+	return Expr(args[idx]) + "." + fieldName(fa.X.Type(), fa.Field), bin.Op == token.NEQ, true
 }
 
 func isNilConst(v ssa.Value) bool {
